@@ -1326,10 +1326,67 @@ private:
           str += '\t';
           break;
         case 'u':
-          // Unicode escape - simplified implementation
-          _pos += 4;  // Skip the 4 hex digits for now
-          str += '?'; // Placeholder
+        {
+          // \uXXXX (RFC 8259 section 7): four hex digits give a UTF-16 code unit; a high surrogate that is
+          // followed by an escaped low surrogate forms one code point; the result is appended as UTF-8.
+          if (_text.size() - _pos < 5)
+          {
+            _error = "Truncated unicode escape";
+            return false;
+          }
+          const unsigned char h0 = _text[_pos + 1], h1 = _text[_pos + 2], h2 = _text[_pos + 3], h3 = _text[_pos + 4];
+          if (!std::isxdigit(h0) || !std::isxdigit(h1) || !std::isxdigit(h2) || !std::isxdigit(h3))
+          {
+            _error = "Invalid unicode escape";
+            return false;
+          }
+          // value of a hex digit: low nibble, plus 9 for the letters (bit 6 set)
+          std::uint32_t cp = ((h0 & 15u) + (h0 >> 6) * 9u) << 12 | ((h1 & 15u) + (h1 >> 6) * 9u) << 8 |
+                             ((h2 & 15u) + (h2 >> 6) * 9u) << 4 | ((h3 & 15u) + (h3 >> 6) * 9u);
+          _pos += 4; // now on the last hex digit
+          if (cp >= 0xD800 && cp <= 0xDBFF && _text.size() - _pos > 6 && _text[_pos + 1] == '\\' &&
+              _text[_pos + 2] == 'u')
+          {
+            const unsigned char l0 = _text[_pos + 3], l1 = _text[_pos + 4], l2 = _text[_pos + 5], l3 = _text[_pos + 6];
+            if (std::isxdigit(l0) && std::isxdigit(l1) && std::isxdigit(l2) && std::isxdigit(l3))
+            {
+              const std::uint32_t lo = ((l0 & 15u) + (l0 >> 6) * 9u) << 12 | ((l1 & 15u) + (l1 >> 6) * 9u) << 8 |
+                                       ((l2 & 15u) + (l2 >> 6) * 9u) << 4 | ((l3 & 15u) + (l3 >> 6) * 9u);
+              if (lo >= 0xDC00 && lo <= 0xDFFF)
+              {
+                cp = 0x10000 + ((cp - 0xD800) << 10) + (lo - 0xDC00);
+                _pos += 6;
+              }
+            }
+          }
+          if (cp >= 0xD800 && cp <= 0xDFFF)
+          {
+            cp = 0xFFFD; // unpaired surrogate: U+FFFD REPLACEMENT CHARACTER
+          }
+          if (cp < 0x80)
+          {
+            str += static_cast<char>(cp);
+          }
+          else if (cp < 0x800)
+          {
+            str += static_cast<char>(0xC0 | (cp >> 6));
+            str += static_cast<char>(0x80 | (cp & 0x3F));
+          }
+          else if (cp < 0x10000)
+          {
+            str += static_cast<char>(0xE0 | (cp >> 12));
+            str += static_cast<char>(0x80 | ((cp >> 6) & 0x3F));
+            str += static_cast<char>(0x80 | (cp & 0x3F));
+          }
+          else
+          {
+            str += static_cast<char>(0xF0 | (cp >> 18));
+            str += static_cast<char>(0x80 | ((cp >> 12) & 0x3F));
+            str += static_cast<char>(0x80 | ((cp >> 6) & 0x3F));
+            str += static_cast<char>(0x80 | (cp & 0x3F));
+          }
           break;
+        }
         default:
           _error = "Invalid escape sequence";
           return false;
